@@ -53,6 +53,7 @@ class AbsorptionContribution(Contribution):
     def prepare_each(self,model,wngrid):
         self.debug('Preparing model with %s', wngrid.shape)
         self._ngrid = wngrid.shape[0]
+        self._nlayers = model.nLayers
         self._use_ktables = GlobalCache()['opacity_method'] == 'ktables'
         self.info('Using cross-sections? %s', not self._use_ktables)
         weights = None
